@@ -81,6 +81,9 @@ def _charset(items, flags) -> tuple[set[int], bool] | None:
     return out, neg
 
 
+_DOLLAR: set[str] = set()      # patterns whose end anchor is `$`
+
+
 def _parse_class(pattern: str):
     """For a pattern of the form ^[...]+$ or [...] return (charset, negated, anchored, repeated)."""
     try:
@@ -93,8 +96,16 @@ def _parse_class(pattern: str):
     items = list(tree)
     anchored = False
     if len(items) >= 2 and str(items[0][0]) == "AT" and str(items[-1][0]) == "AT":
-        anchored = str(items[0][1]) == "AT_BEGINNING" and str(items[-1][1]) == "AT_END"
+        # `$` (AT_END) also matches before a trailing newline: only \Z (AT_END_STRING) anchors at the end of the name
+        anchored = str(items[0][1]) in ("AT_BEGINNING", "AT_BEGINNING_STRING") and str(items[-1][1]) == "AT_END_STRING"
+        if str(items[-1][1]) == "AT_END":
+            _DOLLAR.add(pattern)
         items = items[1:-1]
+    elif len(items) >= 1 and str(items[-1][0]) == "AT" and str(items[-1][1]) == "AT_END_STRING":
+        anchored = True            # re.match anchors at the start by itself
+        items = items[:-1]
+    elif len(items) >= 1 and str(items[0][0]) == "AT" and str(items[0][1]) in ("AT_BEGINNING", "AT_BEGINNING_STRING"):
+        items = items[1:]          # `^[..]+` under fullmatch
     if len(items) != 1:
         return None
     op, av = items[0]
@@ -191,8 +202,11 @@ def r(ck: Check) -> None:
                      f"non-ASCII letters and digits, which are not valid in clingo symbols")
     else:
         acc, neg, anchored, rep = cp
-        if neg or not rep or not (anchored or full):
-            probs.append("the acceptance pattern must match the whole name against a positive class ('^[..]+$')")
+        if not full and chk[0].pattern in _DOLLAR:
+            probs.append(f"the acceptance pattern {chk[0].pattern!r} ends in `$`, which also matches before a trailing newline: the "
+                         f"name 'x\\n' is accepted next to 'x' and both become the same clingo symbol (use re.fullmatch or \\Z)")
+        elif neg or not rep or not (anchored or full):
+            probs.append("the acceptance pattern must match the whole name against a positive class (re.fullmatch('[..]+') or '[..]+\\Z')")
         elif not acc <= SAFE:
             probs.append(f"accepted characters {sorted(map(chr, acc - SAFE))} are not safe in clingo symbols")
         if sp is None:
@@ -327,6 +341,30 @@ def s_(ck: Check) -> None:
                   f"`{text(c)[:60]}` inspects how a formula is written: two logically equivalent update functions (`x` and "
                   f"`x | x`) are then treated differently, so the result depends on the presentation of the network",
                   key=f"syntax inspection {c.func.attr} in {fm.f.name}")
+        # ... nor its text: str()/repr()/format of an update function (outside debug prints) is the formula as written
+        for c in own_walk(fm.f.node):
+            txt_of = None
+            if isinstance(c, ast.Call) and isinstance(c.func, ast.Name) and c.func.id in ("str", "repr", "format") and c.args:
+                txt_of = c.args[0]
+            elif isinstance(c, ast.Call) and isinstance(c.func, ast.Attribute) and c.func.attr in ("to_string", "__str__", "__repr__"):
+                txt_of = c.func.value
+            elif isinstance(c, ast.FormattedValue):
+                txt_of = c.value
+            if txt_of is None or not reads:
+                continue
+            st_ = fm.f.stmt_of(c)
+            if isinstance(st_, ast.Expr) and isinstance(st_.value, ast.Call) and callee_name(st_.value) == "print":
+                continue
+            try:
+                tv_ = fm.deref(txt_of, fm.cfgn(c)) if isinstance(txt_of, ast.Name) else txt_of
+            except AnalysisError:
+                tv_ = txt_of
+            if isinstance(tv_, ast.Call) and callee_name(tv_) == "get_update_function":
+                syn.append(c)
+                ck.ob("S", fm, st_, False,
+                      f"`{text(c)[:60]}` takes the text of an update function: two logically equivalent functions (`x` and `x & x`) "
+                      f"print differently, so whatever is decided on the text depends on the presentation of the network",
+                      key=f"formula text in {fm.f.name}")
         for c in reads:
             sites += 1
             if not syn:
